@@ -3,7 +3,7 @@ import sys
 ID = 'C18'
 LEVEL = 'other'
 CONTRACT_MODULES = ['contracts.models', 'contracts.regions']
-ORACLE_MODULES = ['rt.oracles_time']
+ORACLE_MODULES = ['rt.oracles_time', 'rt.oracles_io']
 
 
 def _cone():
